@@ -6,6 +6,9 @@ use std::collections::BTreeMap;
 pub struct Settings {
     pub string_formats: Vec<String>,
     pub number_formats: Vec<String>,
+    /// the file system it was built from contains a constructor-free alias cycle (KF-C04-4)
+    #[serde(default)]
+    pub alias_cycle: bool,
 }
 impl Settings {
     pub fn to_json(&self) -> String {
@@ -195,9 +198,9 @@ pub struct Outcome {
     pub history_hash: u64,
     /// does the history contain a cache-replacing update and an evaluated checkpoint
     pub nontrivial: bool,
-    /// distinct successful emitted codes seen (hash, code) kept only when asked (for node leg)
+    /// distinct successfully emitted modules of fresh builds, kept only when asked (Node leg of C04)
     #[serde(default)]
-    pub codes: Vec<(u64, String)>,
+    pub codes: Vec<CodeItem>,
     /// distinct SimFs hashes built
     #[serde(default)]
     pub built_fs_hashes: Vec<u64>,
@@ -206,4 +209,17 @@ pub struct Outcome {
     pub known_finding_lines: Vec<String>,
     #[serde(default)]
     pub trace: Vec<String>,
+}
+
+#[derive(Serialize, Deserialize, Clone, Debug)]
+pub struct CodeItem {
+    pub hash: u64,
+    pub code: String,
+    /// keys of the buildParsers<{...}> type literal in the entry file, when it is a literal
+    pub expected_keys: Option<Vec<String>>,
+    pub string_formats: Vec<String>,
+    pub number_formats: Vec<String>,
+    /// the file system it was built from contains a constructor-free alias cycle (KF-C04-4)
+    #[serde(default)]
+    pub alias_cycle: bool,
 }
